@@ -1,6 +1,6 @@
 (* Proofs/RapidGenProofs.v — lemmas for C18 (Model/RapidGen.v). *)
 From Coq Require Import Lia.
-From CP Require Import RapidGen DecodeTotal.
+From CP Require Import DecodeTotal Extra RapidGen.
 Local Open Scope N_scope.
 
 (* ---- [deep] is monotone in its local predicates ------------------------------------------- *)
@@ -197,12 +197,24 @@ Proof.
   destruct (o_no_empty o) eqn:En; [|reflexivity].
   unfold min_len. rewrite En.
   destruct (f_shape f); try reflexivity; destruct (f_ty f) as [k|tm]; try reflexivity.
-  - destruct s; cbn [rep_len]; try discriminate.
+  - intros H. apply andb_true_iff in H. destruct H as [_ H]. revert H.
+    destruct s; cbn [rep_len]; try discriminate.
     destruct l; cbn; [discriminate | intros; reflexivity].
   - destruct (forced o f) eqn:Ef; [|reflexivity]. cbn [andb].
     destruct (child_ok_container vr o ann r tm); [|reflexivity].
+    intros H. apply andb_true_iff in H. destruct H as [_ H]. revert H.
     destruct s; cbn [rep_len]; try discriminate.
     destruct l; cbn; [discriminate | intros; reflexivity].
+Qed.
+
+Lemma gen_no_empty_nonnil vr o sch ann : v_list_clear vr = true ->
+  forall mid m, rapid_in_range vr o sch ann mid m = true -> deep sch ann (no_empty_nonnil_preds o) top_fuel 1 INoField mid m = true.
+Proof.
+  intros Hv. apply from_range; [triv_preds| |triv_preds].
+  intros r p f fa s. unfold rg_slot. cbn [p_slot no_empty_nonnil_preds].
+  destruct (o_no_empty o) eqn:En; [|reflexivity].
+  destruct (f_shape f); try reflexivity. destruct s; try reflexivity. destruct l; try reflexivity.
+  unfold rep_exact_ok, min_len. rewrite En, Hv. cbn. destruct (f_ty f); discriminate.
 Qed.
 
 Lemma gen_disallow_nil vr o sch ann :
@@ -226,7 +238,7 @@ Proof.
   intros r p f fa s. unfold rg_slot. cbn [p_slot no_nil_elem_preds].
   destruct (f_ty f) as [k|tm]; [reflexivity|].
   destruct (f_shape f); try reflexivity.
-  - destruct s; try reflexivity. cbn [rep_len].
+  - destruct s; try reflexivity. cbn [rep_len]. intros H. apply andb_true_iff in H. destruct H as [_ H]. revert H.
     destruct (child_ok_container vr o ann r tm).
     + destruct l; [reflexivity|]. intros H. splitb. assumption.
     + destruct (v_list_truncate vr).
@@ -691,7 +703,7 @@ Proof. vm_compute. repeat split; reflexivity. Qed.
 
 Lemma regression_any_container :
   rapid_in_range repaired o_plain sch_anyl ann_anyl 0 (VMsg [VList [VMsg [VBytes []; VNil] []]] []) = false /\
-  gen repaired o_plain sch_anyl ann_anyl 0 [1; 1; 1] = Ok (VMsg [VList []] []).
+  gen repaired o_plain sch_anyl ann_anyl 0 [1; 1; 1] = Ok (VMsg [VNil] []).
 Proof. vm_compute. split; reflexivity. Qed.
 
 (* Any as the root type with AnyTypeURLs: a value, not a panic (payload: M holding one more Any of M) *)
@@ -704,3 +716,143 @@ Lemma regression_any_root :
   rapid_in_range repaired o_any1 sch_anyl ann_anyl 1 any_regr = true /\
   deep sch_anyl ann_anyl (any_preds o_any1 sch_anyl ann_anyl) top_fuel 1 INoField 1 any_regr = true.
 Proof. vm_compute. repeat split; reflexivity. Qed.
+
+(* ---- nesting depth ------------------------------------------------------------------------------ *)
+Lemma fold_max_le {A} (f : A -> nat) (b : nat) (l : list A) :
+  (forall x, In x l -> (f x <= b)%nat) -> (fold_right (fun s acc => Nat.max (f s) acc) 0%nat l <= b)%nat.
+Proof.
+  induction l as [|x l IH]; intros H; cbn; [lia|].
+  pose proof (H x (or_introl eq_refl)). assert (fold_right (fun s acc => Nat.max (f s) acc) 0%nat l <= b)%nat by (apply IH; intros; apply H; right; assumption).
+  lia.
+Qed.
+
+Lemma wt_scalar_depth k v : wt_scalar k v = true -> val_depth v = 0%nat.
+Proof. destruct k, v; cbn; try discriminate; reflexivity. Qed.
+
+Lemma default_like_depth f s : default_like f s = true -> val_depth s = 0%nat.
+Proof.
+  unfold default_like. destruct s; try reflexivity.
+  - destruct (f_shape f); destruct (f_ty f) as [k|tm]; try discriminate. destruct k; discriminate.
+  - destruct (f_shape f); destruct (f_ty f) as [k|tm]; try discriminate. destruct k; discriminate.
+  - destruct (f_shape f); destruct (f_ty f) as [k|tm]; try discriminate; try (destruct k; discriminate);
+      destruct l; try discriminate; reflexivity.
+  - destruct (f_shape f); destruct (f_ty f) as [k|tm]; try discriminate; try (destruct k; discriminate);
+      destruct kvs; try discriminate; reflexivity.
+Qed.
+
+Lemma defaults_like_depth fs : forall ss, defaults_like fs ss = true -> forall s, In s ss -> val_depth s = 0%nat.
+Proof.
+  induction fs as [|f fs IH]; intros [|s0 ss]; cbn; try discriminate; [intros _ s []|].
+  intros H s [<-|Hin]; splitb; [eapply default_like_depth; eauto|eapply IH; eauto].
+Qed.
+
+Lemma is_fresh_depth sch tm v : is_fresh sch tm v = true -> (val_depth v <= 1)%nat.
+Proof.
+  unfold is_fresh. destruct v; try discriminate. destruct (get_msg sch tm); [|discriminate]. intros H. splitb.
+  cbn [val_depth]. apply le_n_S. apply fold_max_le. intros x Hx. erewrite defaults_like_depth; eauto.
+Qed.
+
+Section Depth.
+  Variable vr : variant.
+  Variable o : gopts.
+  Variable sch : schema.
+  Variable ann : annots.
+  Hypothesis Hfm : fmap_typed o.
+  Let P := range_preds vr o sch ann.
+
+  Lemma scalar_depth k d v : rg_scalar vr o k d v = true -> val_depth v = 0%nat.
+  Proof. intros H. eapply wt_scalar_depth. eapply rg_scalar_wt; eauto. Qed.
+
+  (* an Any message: two byte strings *)
+  Lemma any_depth r p ic tm e : is_any ann tm = true -> deep sch ann P (S r) p ic tm e = true -> (val_depth e <= 1)%nat.
+  Proof.
+    unfold is_any, wkt_of. cbn [deep]. destruct (get_msg sch tm); [|discriminate].
+    destruct (nth_error ann tm) as [ma|]; [|discriminate]. destruct (a_wkt ma) eqn:Ew; try discriminate. intros _.
+    destruct e; try discriminate. intros H. apply andb_true_iff in H. destruct H as [H _].
+    cbn [p_msg P range_preds] in H. unfold rg_msg in H. rewrite Ew in H. splitb.
+    destruct slots as [|[] [|vb [|]]]; try discriminate. splitb.
+    destruct vb; try discriminate; cbn; lia.
+  Qed.
+
+  Lemma slot_depth r :
+    (1 <= r)%nat ->
+    ((2 <= r)%nat -> forall p ic mid v, deep sch ann P r p ic mid v = true -> (val_depth v <= r)%nat) ->
+    forall p f fa s, slot_deep P (deep sch ann P r) r p f fa s = true -> (val_depth s <= r)%nat.
+  Proof.
+    intros H1 IH p f fa s. unfold slot_deep. cbn [p_slot P range_preds]. unfold rg_slot.
+    intros H. apply andb_true_iff in H. destruct H as [Hl Hd].
+    assert (Hchild : forall pp ic tm e, child_ok_singular o ann r tm = true ->
+                                       deep sch ann P r pp ic tm e = true -> (val_depth e <= r)%nat).
+    { intros pp ic tm e Hok He. unfold child_ok_singular in Hok. destruct (is_any ann tm) eqn:Ea.
+      - destruct r as [|r]; [lia|]. pose proof (any_depth r pp ic tm e Ea He). lia.
+      - apply Nat.leb_le in Hok. eapply IH; eauto. }
+    assert (Hchild2 : forall pp ic tm e, (2 <= r)%nat -> deep sch ann P r pp ic tm e = true -> (val_depth e <= r)%nat).
+    { intros; eapply IH; eauto. }
+    destruct (f_shape f) eqn:Es; destruct (f_ty f) as [k|tm] eqn:Et; unfold elem_deep in Hd; rewrite ?Et in Hd.
+    - (erewrite scalar_depth by (unfold P in *; cbn [p_scalar range_preds] in *; eassumption)); lia.
+    - destruct s; try discriminate; try (cbn; lia). eapply Hchild; eauto.
+    - destruct s; cbn [rep_len] in Hl; try discriminate; cbn [val_depth]; try lia.
+      apply fold_max_le. intros x Hx. eapply forallb_forall in Hd; [|exact Hx]. cbn in Hd.
+      unfold elem_deep in Hd; rewrite ?Et in Hd; cbn beta iota in Hd. (erewrite scalar_depth by (unfold P in *; cbn [p_scalar range_preds] in *; eassumption)); lia.
+    - destruct s; cbn [rep_len] in Hl; try discriminate; cbn [val_depth]; try lia.
+      apply fold_max_le. intros x Hx.
+      destruct (2 <=? r)%nat eqn:E2.
+      + apply Nat.leb_le in E2. eapply forallb_forall in Hd; [|exact Hx]. unfold elem_deep in Hd; rewrite ?Et in Hd; cbn beta iota in Hd.
+        assert (Hx' : x = VNil \/ deep sch ann P r 1 (IField (a_iface fa)) tm x = true) by (destruct x; auto).
+        destruct Hx' as [->|Hx']; [cbn; lia|eapply Hchild2; eauto].
+      + unfold child_ok_container in Hl. rewrite E2 in Hl. cbn [andb] in Hl.
+        destruct (v_list_truncate vr).
+        * destruct l; [destruct Hx|discriminate].
+        * splitb.
+          match goal with Hf : forallb (is_fresh sch tm) l = true |- _ =>
+            eapply forallb_forall in Hf; [|exact Hx]; pose proof (is_fresh_depth _ _ _ Hf) end. lia.
+    - destruct s; try discriminate; cbn [val_depth]; try lia.
+      unfold elem_deep in Hd; rewrite ?Et in Hd; cbn beta iota in Hd. (erewrite scalar_depth by (unfold P in *; cbn [p_scalar range_preds] in *; eassumption)); lia.
+    - destruct s; try discriminate; cbn [val_depth]; try lia.
+      destruct s; try discriminate. unfold elem_deep in Hd; rewrite ?Et in Hd; cbn beta iota in Hd. eapply Hchild; eauto.
+    - destruct s; cbn [map_kvs] in Hl; try discriminate; cbn [val_depth]; try lia.
+      apply fold_max_le. intros [kx vx] Hx. eapply forallb_forall in Hd; [|exact Hx]. cbn [fst snd] in *. splitb.
+      unfold elem_deep in H0; rewrite ?Et in H0; cbn beta iota in H0. (erewrite scalar_depth by (unfold P in *; cbn [p_scalar range_preds] in *; eassumption)); lia.
+    - destruct s; cbn [map_kvs] in Hl; try discriminate; cbn [val_depth]; try lia.
+      apply fold_max_le. intros [kx vx] Hx. pose proof Hd as Hd'. eapply forallb_forall in Hd; [|exact Hx]. cbn [fst snd] in *. splitb.
+      unfold elem_deep in H2; rewrite ?Et in H2; cbn beta iota in H2.
+      destruct kvs as [|kv0 kvs]; [destruct Hx|]. cbn [is_nilb orb] in *.
+      unfold child_ok_container in H3. splitb. apply Nat.leb_le in H3.
+      assert (Hv' : vx = VNil \/ deep sch ann P r (10 * p) (IField (a_iface fa)) tm vx = true) by (destruct vx; auto).
+      destruct Hv' as [->|Hv']; [cbn; lia|eapply Hchild2; eauto].
+  Qed.
+
+  Lemma slots_depth r :
+    (1 <= r)%nat ->
+    ((2 <= r)%nat -> forall p ic mid v, deep sch ann P r p ic mid v = true -> (val_depth v <= r)%nat) ->
+    forall p fs fas ss, slots_deep P (deep sch ann P r) r p fs fas ss = true -> forall s, In s ss -> (val_depth s <= r)%nat.
+  Proof.
+    intros H1 IH p fs. induction fs as [|f fs IHf]; intros [|fa fas] [|s0 ss]; cbn; try discriminate; [intros _ s []|].
+    intros H s [<-|Hin]; splitb; [eapply slot_depth; eauto|eapply IHf; eauto].
+  Qed.
+
+  Lemma range_depth : forall r p ic mid v, (2 <= r)%nat -> deep sch ann P r p ic mid v = true -> (val_depth v <= r)%nat.
+  Proof.
+    induction r as [|r IH]; intros p ic mid v H2; [lia|]. cbn [deep].
+    destruct (get_msg sch mid) as [md|]; [|discriminate]. destruct (nth_error ann mid) as [ma|]; [|discriminate].
+    destruct v; try discriminate. intros H. apply andb_true_iff in H. destruct H as [Hm Hs].
+    cbn [p_msg P range_preds] in Hm. unfold rg_msg in Hm. splitb. cbn [val_depth]. apply le_n_S.
+    destruct (a_wkt ma) eqn:Ew.
+    - apply fold_max_le. eapply slots_depth; [lia| |exact Hs]. intros; eapply IH; eauto.
+    - destruct slots as [|[] [|[] [|]]]; try discriminate. cbn. lia.
+    - destruct slots as [|[] [|[] [|]]]; try discriminate. cbn. lia.
+    - destruct slots as [|[] [|vb [|]]]; try discriminate. splitb. destruct vb; try discriminate; cbn; lia.
+    - destruct slots as [|s [|]]; try discriminate. destruct s; cbn [rep_len] in H0; try discriminate; cbn; try lia.
+      destruct (v_fieldmask_stored vr).
+      + splitb. cbn. rewrite Nat.max_0_r. apply fold_max_le. intros x Hx.
+        match goal with Hf : forallb _ l = true |- _ => eapply forallb_forall in Hf; [|exact Hx]; destruct x; try discriminate end.
+        cbn. lia.
+      + destruct l; [cbn; lia|discriminate].
+  Qed.
+End Depth.
+
+(* messages nest at most depthLimit + 2 = 12 levels: the root and 10 levels below it, plus a singular
+   Any field of a depth-10 message (setFieldValue calls genAny without the depth test) *)
+Lemma gen_depth_bounded vr o sch ann : fmap_typed o ->
+  forall mid m, rapid_in_range vr o sch ann mid m = true -> (val_depth m <= 12)%nat.
+Proof. intros Hf mid m H. eapply (range_depth vr o sch ann Hf top_fuel); [unfold top_fuel; lia|exact H]. Qed.
